@@ -493,7 +493,7 @@ func init() {
 func runPools(t *simrt.Tape, rc *RunCtx) *Violation {
 	const prop = "C09"
 	rc.declare("clients>=4", "nested_parallel_gemm", "poisoned_workspace_reused", "pool_double_put_observed")
-	k := 2 + t.Choose(simrt.KWorkload, 5)
+	k := 2 + t.Choose(simrt.KWorkload, 4+scale)
 	single := t.Choose(simrt.KWorkload, 8) == 7
 	if single {
 		k = 1 // a single client under dirty pools: reads-before-write of clear=false workspaces
@@ -501,7 +501,7 @@ func runPools(t *simrt.Tape, rc *RunCtx) *Violation {
 	plans := make([][]poolStep, k)
 	desc := make([]string, k)
 	for c := range plans {
-		steps := 2 + t.Choose(simrt.KWorkload, 5)
+		steps := 2 + t.Choose(simrt.KWorkload, 3+2*scale)
 		for s := 0; s < steps; s++ {
 			op := t.Choose(simrt.KWorkload, len(poolOps))
 			n := 1 + t.Choose(simrt.KWorkload, 10)
